@@ -33,7 +33,7 @@ TYPES = {
     'array': (dict(type='array'), [1, 2], '[3, 4]', 'notjson'),
     'intmin': (dict(type='integer', constraints=dict(minimum=0)), 3, '4', -1),
 }
-CHANNELS = ['set_type', 'validate', 'results', 'dumper']
+CHANNELS = ['set_type', 'set_type_transform', 'validate', 'results', 'dumper']
 
 
 def model(rep, t):
@@ -65,7 +65,7 @@ def replay_case(item):
     from ..common import tuple_source
     setup_repo()
     c, ch, t1, t2 = item['case'], item['channel'], item['t1'], item['t2']
-    if ch == 'set_type':
+    if ch in ('set_type', 'set_type_transform'):
         t2 = t1
     tn = [t1, t2]
     rows = []
@@ -98,6 +98,17 @@ def replay_case(item):
                 if ch == 'set_type':
                     opts = dict(TYPES[t1][0])
                     ds = Flow(tuple_source([('t', anyf, rows)]), DF.set_type('f[12]', on_error=handler, **opts)).datastream()
+                    out = [[dict(r) for r in res] for res in ds.res_iter][0]
+                elif ch == 'set_type_transform':
+                    # lexical values arrive wrapped in '<...>' and only the transform makes them castable: it must run BEFORE the cast,
+                    # on every value of the checked fields and on nothing else
+                    opts = dict(TYPES[t1][0])
+                    wrapped = [dict(r, **{f: ('<%s>' % r[f] if isinstance(r[f], str) and c['tbl'][i][j] == 'lex' else r[f])
+                                          for j, f in enumerate(('f1', 'f2'))}) for i, r in enumerate(rows)]
+
+                    def unwrap(v):
+                        return v[1:-1] if isinstance(v, str) and v.startswith('<') and v.endswith('>') else v
+                    ds = Flow(tuple_source([('t', anyf, wrapped)]), DF.set_type('f[12]', on_error=handler, transform=unwrap, **opts)).datastream()
                     out = [[dict(r) for r in res] for res in ds.res_iter][0]
                 elif ch == 'validate':
                     ds = Flow(tuple_source([('t', typed, rows)]), DF.validate(on_error=handler)).datastream()
@@ -165,7 +176,7 @@ def run():
         for _ in range(reps):
             ch = r.choice(CHANNELS)
             if ch == 'dumper' and c['policy'] not in ('raise', 'drop', 'clear'):
-                ch = r.choice(CHANNELS[:3])     # a dumper cannot serialise the invalid values that ignore / keep-handlers let through
+                ch = r.choice(CHANNELS[:4])     # a dumper cannot serialise the invalid values that ignore / keep-handlers let through
             # the dumpers re-declare the format of datetime fields (their own dialect), so its default lexical form is not valid there
             tn2 = [x for x in tnames if x != 'datetime'] if ch == 'dumper' else tnames
             items.append(dict(case=c, channel=ch, t1=r.choice(tn2), t2=r.choice(tn2)))
